@@ -80,10 +80,17 @@ def durations(case):
     return (case["min_len"] - 0.5) * w, (case["max_len"] + 0.5) * w, ((case["max_sil"] + 0.5) * w if case["max_sil"] else 0)
 
 
+def flag(value, k):
+    """a boolean option the way callers legally spell it: True/False, 1/0, numpy.True_/numpy.False_ (what `x > y` on arrays gives)"""
+    import numpy as np
+
+    return ((True, 1, np.True_, True) if value else (False, 0, np.False_, False))[k % 4]
+
+
 def split_kwargs(case, long_names=True):
     min_dur, max_dur, max_silence = durations(case)
     kw = dict(min_dur=min_dur, max_dur=max_dur, max_silence=max_silence,
-              drop_trailing_silence=case["drop"], strict_min_dur=case["strict"])
+              drop_trailing_silence=flag(case["drop"], case.get("pcm_seed", 0) >> 20), strict_min_dur=flag(case["strict"], case.get("pcm_seed", 0) >> 22))
     if long_names:
         kw.update(analysis_window=case["w"], energy_threshold=case["thr"], use_channel=case["uc"])
     else:
